@@ -21,9 +21,9 @@ Proof.
   pose proof (floor10_le f). pose proof (floor10_le u). pose proof (floor10_mono f u Hfu).
   assert (Hstep : forall a b, floor10 a < floor10 b -> floor10 a + ten_s <= floor10 b).
   { intros a b Hab. unfold floor10, ten_s in *. nia. }
-  destruct ((floor10 u =? u) && negb (floor10 f =? floor10 u)) eqn:E; inversion H; subst; clear H.
+  destruct ((floor10 u =? u) && negb (floor10 f =? floor10 u)) eqn:E; injection H as Hw0 Hw1; subst w0 w1.
   - apply andb_true_iff in E as [E1 E2]. apply Z.eqb_eq in E1. apply negb_true_iff in E2. apply Z.eqb_neq in E2.
-    assert (floor10 f < floor10 u) by lia. specialize (Hstep f u H). unfold ten_s in *. lia.
+    assert (Hlt : floor10 f < floor10 u) by lia. specialize (Hstep f u Hlt). unfold ten_s in *. lia.
   - unfold ten_s in *. lia.
 Qed.
 
@@ -35,7 +35,7 @@ Section HandlerProofs.
   Variable put : key -> Z -> Z -> tree -> meta -> state -> state.
 
   Notation ingest := (ingest tree key meta state parse_key meta_of parse_tree parse_trie parse_lines parse_groups put).
-  Notation ingest_params_of := (ingest_params_of tree key meta parse_key meta_of).
+  Notation ingest_params_of := (ingest_params_of key meta parse_key meta_of).
   Notation parser_of := (parser_of tree parse_tree parse_trie parse_lines parse_groups).
   Notation run := (run tree key meta state parse_key meta_of parse_tree parse_trie parse_lines parse_groups put).
   Notation acknowledged := (acknowledged tree key meta state parse_key meta_of parse_tree parse_trie parse_lines parse_groups put).
@@ -54,19 +54,19 @@ Section HandlerProofs.
   Lemma ingest_ack : forall rq e st st', ingest rq e st = (Status 200, st') ->
     exists ip t w0 w1,
       ingest_params_of rq e = Some ip /\
-      parser_of (ip_format _ _ _ ip) (rq_body rq) = Some t /\
-      w0 = floor10 (ip_from _ _ _ ip) /\ w0 + ten_s <= w1 /\
+      parser_of (ip_format _ _ ip) (rq_body rq) = Some t /\
+      w0 = floor10 (ip_from _ _ ip) /\ w0 + ten_s <= w1 /\
       e_space_ok e = true /\
-      (forall thr, e_retention_thr e = Some thr -> thr <= ip_from _ _ _ ip) /\
-      st' = put (ip_key _ _ _ ip) w0 w1 t (ip_meta _ _ _ ip) st.
+      (forall thr, e_retention_thr e = Some thr -> thr <= ip_from _ _ ip) /\
+      st' = put (ip_key _ _ ip) w0 w1 t (ip_meta _ _ ip) st.
   Proof.
     intros rq e st st' H. unfold Server.ingest in H.
     destruct (ingest_params_of rq e) as [ip|] eqn:Eip; [|inversion H].
-    destruct (parser_of (ip_format _ _ _ ip) (rq_body rq)) as [t|] eqn:Ep; [|inversion H].
+    destruct (parser_of (ip_format _ _ ip) (rq_body rq)) as [t|] eqn:Ep; [|inversion H].
     destruct (e_space_ok e) eqn:Es; simpl negb in H; cbv iota in H; [|inversion H].
-    set (from := ip_from _ _ _ ip) in *.
-    set (until := if ip_until _ _ _ ip <? from then from else ip_until _ _ _ ip) in *.
-    assert (Hfu : from <= until) by (unfold until; destruct (Z.ltb_spec (ip_until _ _ _ ip) from); lia).
+    set (from := ip_from _ _ ip) in *.
+    set (until := if ip_until _ _ ip <? from then from else ip_until _ _ ip) in *.
+    assert (Hfu : from <= until) by (unfold until; destruct (Z.ltb_spec (ip_until _ _ ip) from); lia).
     destruct (match e_retention_thr e with Some thr => from <? thr | None => false end) eqn:Er; [inversion H|].
     destruct (normalize from until) as [w0 w1] eqn:En.
     destruct (normalize_window from until w0 w1 Hfu En) as (Hw0 & Hw1 & _ & _).
@@ -80,7 +80,7 @@ Section HandlerProofs.
   Proof.
     intros rq e st o st' H Ho. unfold Server.ingest in H.
     destruct (ingest_params_of rq e) as [ip|]; [|inversion H; reflexivity].
-    destruct (parser_of (ip_format _ _ _ ip) (rq_body rq)) as [t|]; [|inversion H; reflexivity].
+    destruct (parser_of (ip_format _ _ ip) (rq_body rq)) as [t|]; [|inversion H; reflexivity].
     destruct (negb (e_space_ok e)); [inversion H; reflexivity|].
     destruct (match e_retention_thr e with Some thr => _ | None => false end); [inversion H; reflexivity|].
     destruct (normalize _ _) as [w0 w1]. destruct (w1 <=? w0); inversion H; subst; [reflexivity|congruence].
@@ -90,11 +90,11 @@ Section HandlerProofs.
   Lemma ingest_total : forall rq e st, exists code, fst (ingest rq e st) = Status code.
   Proof.
     intros rq e st. unfold Server.ingest. destruct (ingest_params_total rq e) as [ip ->].
-    destruct (parser_of (ip_format _ _ _ ip) (rq_body rq)) as [t|]; [|eexists; reflexivity].
+    destruct (parser_of (ip_format _ _ ip) (rq_body rq)) as [t|]; [|eexists; reflexivity].
     destruct (negb (e_space_ok e)); [eexists; reflexivity|].
     destruct (match e_retention_thr e with Some thr => _ | None => false end); [eexists; reflexivity|].
-    set (from := ip_from _ _ _ ip). set (until := if ip_until _ _ _ ip <? from then from else ip_until _ _ _ ip).
-    assert (Hfu : from <= until) by (unfold until; destruct (Z.ltb_spec (ip_until _ _ _ ip) from); lia).
+    set (from := ip_from _ _ ip). set (until := if ip_until _ _ ip <? from then from else ip_until _ _ ip).
+    assert (Hfu : from <= until) by (unfold until; destruct (Z.ltb_spec (ip_until _ _ ip) from); lia).
     destruct (normalize from until) as [w0 w1] eqn:En.
     destruct (normalize_window from until w0 w1 Hfu En) as (Hw0 & Hw1 & _ & _).
     replace (w1 <=? w0) with false by (unfold ten_s in *; lia). eexists; reflexivity.
@@ -125,9 +125,8 @@ Section HandlerProofs.
     destruct (ingest rq e st) as [o st'] eqn:E. specialize (IH st').
     destruct (run l st') as [os st''] eqn:Er. simpl in *. unfold Server.acknowledged. rewrite E. simpl.
     destruct o as [code|w].
-    - destruct (Z.eq_dec code 200) as [->|Hne]; [exact IH|].
-      assert (st' = st) by (eapply ingest_reject; [exact E|congruence]). subst st'.
-      destruct code; try exact IH. destruct p; try exact IH; repeat (destruct p; try exact IH). congruence.
+    - destruct (Z.eqb_spec code 200) as [->|Hne]; [exact IH|].
+      assert (st' = st) by (eapply ingest_reject; [exact E|congruence]). subst st'. exact IH.
     - assert (st' = st) by (eapply ingest_reject; [exact E|congruence]). subst st'. exact IH.
   Qed.
 
